@@ -95,21 +95,33 @@ PROPS = {
                 rule="same histories as C01; every decision compared with an exact integer token bucket (capacity burst, one token per emission interval); non-trivial = both admitted and denied requests present"),
     "C03": dict(runs=[("core", "hist", dict(quick=1000, thorough=20000)), ("core", "probe", dict(quick=800, thorough=12000))], proj=proj_fields, tags=["C03"],
                 rule="hist: every response's fields against the bucket (remaining exact, retry_after exact, reset_after >= refill time, reset_after = lifetime asked of the store); probe: sampled responses probed from a re-executed copy of their state (remaining / remaining+1, retry_after / retry_after-1ns, after reset_after = never-seen key)"),
-    "C04": dict(runs=[("core", "insert", dict(quick=1500, thorough=30000))], proj=proj_resp_trace, tags=["C04"],
+    "C04": dict(runs=[("core", "insert", dict(quick=1500, thorough=30000)), ("server", "wire", dict(quick=40, thorough=400))], proj=proj_resp_trace, tags=["C04"],
+                # zero-quantity and rejected requests must stay without effect when they arrive through a transport: the wire mode
+                # sends quantity 0 / invalid limits over HTTP, gRPC and RESP and compares the request the library saw and the
+                # budget afterwards with what was sent (its discrepancies carry the tag C12)
+                tags_by_mode={"wire": ["C12"]},
                 rule="base history vs the same history with denied / zero-quantity / invalid requests inserted at random positions and times (also under other limits); every base response must be unchanged; rejected requests must issue no store operation and create no entry"),
     "C05": dict(runs=[("core", "iso", dict(quick=400, thorough=6000))], proj=proj_resp, tags=["C05"],
                 rule="interleaved multi-key history (keys: empty, NUL, Unicode, 64 KiB, one-byte differences; 20-70% noise keys so the table grows and every cleanup trigger fires) vs the solo run of each key on a fresh limiter"),
     "C06": dict(runs=[("core", "storeops", dict(quick=600, thorough=3000)), ("core", "hist", dict(quick=300, thorough=5000))], proj=proj_full, tags=["C06"],
+                # a store operation that panics is not the behaviour of a map
+                tags_by_mode={"storeops": ["C08"], "hist": ["C08"]},
                 rule="raw get/set-if-absent/compare-and-swap sequences on the three real stores in random (also degenerate) configurations, times straddling every cleanup trigger; snapshot of entries and scheduling state compared with the model after every operation; answers compared with an independent abstract expiring map"),
     "C07": dict(runs=[("core", "hist", dict(quick=800, thorough=15000)), ("core", "reclaim", dict(quick=150, thorough=3000))], proj=proj_lifetime, tags=["C07"],
                 rule="hist: lifetime of every store write within [E, 2*B*E]; reclaim: unbounded stream of fresh keys with a bounded active set on cleanup-enabled stores, after every guaranteed cleanup point (interval elapsed / operation budget) no held entry is expired and the entry count is within the active set; probabilistic store (half of its sessions start from the state after 10^9..10^12 writes, a few writes before count*multiplier passes a multiple of 2^64): no entry is expired-and-held over N consecutive write operations"),
-    "C08": dict(runs=[("core", "lattice", dict(quick=0, thorough=1))], proj=proj_resp, tags=["C08"],
-                rule="boundary lattice {MIN,-1,0,1,2,2^31-1,2^31,2^32-1,2^32,2^32+1,2^53-1,2^53+1,2^63/1e9 -+1,MAX-1,MAX}^4 (thorough: 24^4) x 4 timestamps 1970..2200 x fresh/pre-populated x 3 stores, plus random points; harness built with overflow checks on (debug profile) and off (release)",
+    "C08": dict(runs=[("core", "lattice", dict(quick=0, thorough=1)), ("core", "hist", dict(quick=2000, thorough=20000))], proj=proj_resp, tags=["C08"],
+                rule="hist: multi-key histories on every store configuration (incl. min_interval > max_interval, zero intervals, modulus 0/1), with hot keys whose writes land on expired-but-unswept entries dozens of times between two cleanups - any panic is a violation; lattice: boundary lattice {MIN,-1,0,1,2,2^31-1,2^31,2^32-1,2^32,2^32+1,2^53-1,2^53+1,2^63/1e9 -+1,MAX-1,MAX}^4 (thorough: 24^4) x 4 timestamps 1970..2200 x fresh/pre-populated x 3 stores, plus random points; harness built with overflow checks on (debug profile) and off (release)",
                 profiles=["release", "dev"]),
-    "C17": dict(runs=[("core", "regress", dict(quick=300, thorough=8000))], proj=proj_allowed, tags=["C17"],
+    "C17": dict(runs=[("core", "regress", dict(quick=600, thorough=10000))], proj=proj_allowed, tags=["C17"],
+                # "no call panics or errors" under any timestamp order
+                tags_by_mode={"regress": ["C08"]},
                 rule="histories with arbitrary timestamp order (jitter, multi-second steps back, oscillation) on stores with aggressive cleanup; no error/panic; window bound with measured J; budget probes at an earlier timestamp vs the latest one by re-execution"),
-    "C18": dict(runs=[("core", "rate", dict(quick=600000, thorough=20000000))], proj=proj_full, tags=["C18"],
-                rule="(count, period) boundary lattice, divisors and near-divisors of period*1e9, random points in and outside D; unit constructors at boundaries and random n in 1..2^32-1; non-trivial = point inside D"),
+    "C18": dict(runs=[("core", "rate", dict(quick=600000, thorough=20000000)), ("core", "hist", dict(quick=400, thorough=8000))], proj=proj_full, tags=["C18"],
+                # the rate the LIMITER realises: histories whose requests alternate between limits that differ in one field
+                # (count off by one / doubled / by a multiple of 2^32, period swapped between the standard ones) and carry
+                # rejected requests in between; every decision against the exact-quotient token bucket
+                tags_by_mode={"hist": ["C01", "C02", "C03"]},
+                rule="hist: limiter-level histories (sibling limits, see C01/C02) against the exact-quotient bucket; rate: (count, period) boundary lattice, divisors and near-divisors of period*1e9, random points in and outside D; unit constructors at boundaries and random n in 1..2^32-1; non-trivial = point inside D"),
     "C09": dict(runs=[("server", "actor", dict(quick=300, thorough=6000)), ("server", "wire", dict(quick=40, thorough=600)), ("server", "binary", dict(quick=60, thorough=120))], proj=proj_full, tags=["C09"],
                 rule="actor: the real actor loop (unspawned, hook) and real RateLimiterHandle::throttle futures polled by a hand-rolled deterministic scheduler - exhaustive enumeration of schedules for small configurations, random schedules for larger; every trace replayed through the Lean LTS validator with the GCRA model as limiter; wire: one in-process server with HTTP + gRPC + RESP on loopback sockets sharing one actor, traces validated (loose enq order)"),
     "C10": dict(modules=["C10", "C10Resp"], runs=[("server", "actor", dict(quick=300, thorough=6000)), ("server", "conn", dict(quick=60, thorough=500))], proj=proj_full, tags=["C10"],
@@ -148,7 +160,7 @@ def sh(cmd, cwd=None, timeout=None, env=None):
 class Lock:
     def __init__(self, name):
         os.makedirs(WORK, exist_ok=True)
-        self.path = os.path.join(WORK, name + ".lock")
+        self.path = os.path.join(WORK, name + LOCK_SUFFIX + ".lock")
     def __enter__(self):
         self.f = open(self.path, "w")
         fcntl.flock(self.f, fcntl.LOCK_EX)
@@ -288,6 +300,7 @@ def leg_p(pid, tier):
 # ------------------------------------------------------------------------------------------------
 
 TRANSLATOR_BROKEN = None
+LOCK_SUFFIX = ""   # self-validation runs against another checkout get private locks, model copy and status file
 TRANSLATOR_STATUS = {}
 NEED_BINARY = False
 
@@ -310,6 +323,20 @@ def alt_harness():
                 if new != txt:
                     open(pth, "w").write(new)
     HARNESS = alt
+    # ... and a private copy of the Lean project (Gen/Consts.lean is regenerated from that checkout),
+    # so that self-validation runs against different checkouts can go on side by side
+    global LEAN, DRIVER, LOCK_SUFFIX
+    tag = hashlib.sha1(REPO.encode()).hexdigest()[:8]
+    altlean = os.path.join(WORK, "altlean-" + tag)
+    os.makedirs(altlean, exist_ok=True)
+    sh(["rsync", "-a", "--delete", "--exclude", "Gen/Consts.lean", os.path.join(ROOT, "lean") + "/", altlean + "/"])
+    LEAN = altlean
+    DRIVER = os.path.join(LEAN, ".lake", "build", "bin", "driver")
+    LOCK_SUFFIX = "-" + tag
+    ENV["VERIF_LEAN_DIR"] = altlean
+    ENV["VERIF_TRANSLATOR_STATUS"] = os.path.join(WORK, f"translator_status-{tag}.json")
+    os.environ["VERIF_LEAN_DIR"] = altlean
+    os.environ["VERIF_TRANSLATOR_STATUS"] = ENV["VERIF_TRANSLATOR_STATUS"]
 
 def build_all(profiles=("release",)):
     """translator + driver + harness; returns (ok, detail)"""
@@ -323,7 +350,7 @@ def build_all(profiles=("release",)):
             TRANSLATOR_BROKEN = "translator could not regenerate constants / tables from the source: " + out.strip()[-600:]
         global TRANSLATOR_STATUS
         try:
-            TRANSLATOR_STATUS = json.load(open(os.path.join(WORK, "translator_status.json")))
+            TRANSLATOR_STATUS = json.load(open(os.environ.get("VERIF_TRANSLATOR_STATUS", os.path.join(WORK, "translator_status.json"))))
         except Exception:
             TRANSLATOR_STATUS = {}
         rc, out = sh(["lake", "build", "driver"], cwd=LEAN, timeout=3000)
@@ -476,7 +503,7 @@ def run_core(pid, tier, seed):
     profiles = spec.get("profiles", ["release"])
     wdir = os.path.join(WORK, f"{pid}-{tier}")
     if REPO != "/repo":
-        wdir += "-alt"
+        wdir += "-alt-" + hashlib.sha1(REPO.encode()).hexdigest()[:8]
     import shutil
     shutil.rmtree(wdir, ignore_errors=True)
     log(f"[{pid}] tier={tier} seed={seed}")
